@@ -386,6 +386,13 @@ pub fn run(cx: &mut Cx) -> String {
         let term = t.to_ndb();
         let (r0, c0, _) = no_panic(|| run_with(&term, &costs3, BIG, 200)).map_err(|pn| panic_failure("run", pn, input.clone()))?;
         let (r1, c1, _) = no_panic(|| run_with(&term, &bumped, BIG, 200)).map_err(|pn| panic_failure("run", pn, input.clone()))?;
+        // a higher price may exhaust even the large budget (builtins costed by value, such as
+        // dropList with a huge count): running out of budget is then the expected outcome
+        let out_of_budget = |r: &Result<String, String>| matches!(r, Err(e) if e.contains("OutOfEx"));
+        if out_of_budget(&r0) || out_of_budget(&r1) {
+            st.class("perturb:budget-exhausted(inconclusive)");
+            return Ok(());
+        }
         if r0 != r1 {
             return Err(Failure::new("result-depends-on-cost-parameter", json!({"input": input, "before": r0, "after": r1})));
         }
